@@ -38,6 +38,7 @@ fn sweep_tree() -> TreeDesc {
             default: false,
             h: 0,
         }],
+        fixed: None,
     }
 }
 
@@ -88,6 +89,7 @@ impl Prop for C14 {
             "standard_code_lookup",
             "library_execution_error_below_minimum",
             "library_execution_error_exponent_notation",
+            "code_raised_against_full_queue",
         ];
         v.into_iter().map(String::from).collect()
     }
@@ -106,13 +108,16 @@ impl Prop for C14 {
                 (run as i64 - 32768) as i16
             };
             let mut rng = Rng::new(mix(seed, "C14-sweep", run));
+            // every third error number is raised against a bounded queue that is already full (the
+            // class bit must not depend on what the queue keeps)
+            let full = run % 3 == 1;
             let cfg = Config {
-                queue: QueueCfg::Vec,
+                queue: if full { QueueCfg::Array { cap: *rng.pick(&[1usize, 2]) } } else { QueueCfg::Vec },
                 controllers: 1,
                 tree: sweep_tree(),
                 plain488: false,
             };
-            let mut t = base_trace("C14", seed, run, "sweep", cfg.clone());
+            let mut t = base_trace("C14", seed, run, if full { "sweep_full_queue" } else { "sweep" }, cfg.clone());
             let tc = TreeCtx::new(&cfg.tree);
             let ext = if rng.chance(1, 3) { Some(rng.below(16) as u8) } else { None };
             let mut u = Unit {
@@ -136,6 +141,27 @@ impl Prop for C14 {
                     corrupt: vec![],
                 })
             };
+            if full {
+                // fill the queue with events of the "no bit" class (they leave ESR alone)
+                for k in 0..2 {
+                    let mut f = Unit {
+                        path: vec!["RAIS".to_string()],
+                        ..Default::default()
+                    };
+                    f.plan.fail = Some(PlanFail {
+                        err: ErrSpec {
+                            code: -99 + k,
+                            ext: None,
+                            msg: 0,
+                        },
+                        phase: Phase::Before,
+                    });
+                    t.steps.push(send(Msg {
+                        units: vec![f],
+                        end: B::new(),
+                    }));
+                }
+            }
             t.steps.push(send(Msg {
                 units: vec![u],
                 end: B::new(),
@@ -224,12 +250,24 @@ impl Prop for C14 {
                     g.single(c, false, vec![p])
                 }
                 _ => {
-                    // response buffer exhausted
-                    let m = g.single(Contrib::Idn, true, vec![]);
+                    // response buffer exhausted: inside a unit, exactly at a unit separator, or at
+                    // the terminator
+                    let n = g.rng.urange(1, 3);
+                    let mut units = Vec::new();
+                    for i in 0..n {
+                        units.push(g.c(Contrib::Idn, true, vec![], &[], i == 0));
+                    }
+                    let len = n * crate::device::IDN_RESPONSE.len() + (n - 1);
                     fmt = FmtCfg::Array {
-                        cap: g.rng.usize_below(crate::device::IDN_RESPONSE.len() + 1),
+                        cap: if g.rng.chance(1, 3) {
+                            // exactly full at the end of the k-th unit
+                            let k = g.rng.urange(1, n);
+                            k * crate::device::IDN_RESPONSE.len() + (k - 1)
+                        } else {
+                            g.rng.usize_below(len + 1)
+                        },
                     };
-                    m
+                    Msg { units, end: B::new() }
                 }
             };
             if msg.units.is_empty() {
@@ -246,7 +284,7 @@ impl Prop for C14 {
     }
 
     fn check(&self, trace: &Trace, stats: &mut Stats) -> Vec<Finding> {
-        if trace.mode == "sweep" {
+        if trace.mode == "sweep" || trace.mode == "sweep_full_queue" {
             return check_sweep(trace, stats);
         }
         struct H;
@@ -324,9 +362,24 @@ fn check_sweep(trace: &Trace, stats: &mut Stats) -> Vec<Finding> {
             _ => None,
         })
         .collect();
-    if sends.len() != 3 {
+    let full = trace.mode == "sweep_full_queue";
+    if sends.len() < 3 {
         return out;
     }
+    // set-up: fill the bounded queue
+    let prefill = sends.len() - 3;
+    for s in &sends[..prefill] {
+        let o = world.exec_send(s);
+        log_obs(stats, &o);
+        if !universal(&o, 0, &mut out) {
+            return out;
+        }
+    }
+    if full {
+        stats.probe("code_raised_against_full_queue");
+        stats.fault("F8_queue_overflow");
+    }
+    let sends = &sends[prefill..];
     let spec = match sends[0].msg.units.first().and_then(|u| u.plan.fail.as_ref()) {
         Some(f) => f.err,
         None => return out,
@@ -445,6 +498,10 @@ fn check_sweep(trace: &Trace, stats: &mut Stats) -> Vec<Finding> {
             1,
             format!("error number {}: *ESR? answered {:?} (result {:?}), the class bit is {}", code, B(o.out.clone()), o.result, bit),
         ));
+    }
+    if full {
+        // the queue holds the older events / the overflow marker: nothing more to compare
+        return out;
     }
     // 3. SYST:ERR?
     let o = world.exec_send(sends[2]);
